@@ -177,13 +177,13 @@ PROPS["C16"] = dict(
                "64-bit target); std::str::from_utf8 is tied to the recogniser by cases only "
                "(all 1-byte, edge 2..4-byte forms, damaged texts).  Deserialisation (serde feature) is not "
                "built into the harness: covered by the same std functions it calls, not exercised.",
-    gen=["Bytes"],
+    gen=["Bytes", "Loaders"],
     model_files=["Ref/Bytes.v", "Ref/Utf8.v", "Corr/BytesCheck.v"],
     model_targets=["Corr/BytesCheck.vo"],
-    proof_files=["Proofs/Bytes.v", "Proofs/Utf8.v", "Tie/Bytes.v", "Props/C16.v"],
+    proof_files=["Proofs/Bytes.v", "Proofs/Utf8.v", "Tie/Bytes.v", "Tie/Loaders.v", "Props/C16.v"],
     proof_targets=["Props/C16.vo"],
     props_module="Props.C16",
-    theorems=["C16_code_as_modelled", "C16_other_constructors_funnel", "C16_compare_as_slices",
+    theorems=["C16_code_string_loader_validates", "C16_code_as_modelled", "C16_other_constructors_funnel", "C16_compare_as_slices",
               "C16_string_validates_then_builds", "C16_deref_is_source", "C16_no_memory_errors",
               "C16_count_is_owners", "C16_blocks_live_while_owned", "C16_released_exactly_once",
               "C16_valid_iff_encoding", "C16_valid_up_to_is_the_longest_valid_prefix",
@@ -264,7 +264,8 @@ PROPS["C15"] = dict(
     theorems=["C15_code_leaves_the_loop_when_the_cache_is_gone", "C15_code_leaves_the_loop_when_events_are_over",
               "C15_code_watcher_lets_go_when_nobody_listens", "C15_code_senders_learn_about_a_gone_reloader",
               "C15_idle_blocks", "C15_no_spin",
-              "C15_exits_after_drop", "C15_no_accumulation", "C15_old_loop_spins", "C15_code_reloader_is_dropped_first"],
+              "C15_exits_after_drop", "C15_no_accumulation", "C15_old_loop_spins", "C15_code_reloader_is_dropped_first",
+              "C15_code_reloader_blocks_until_there_is_work"],
     engines=[("loopdiff", [])],
     rule="loopdiff: idle live caches (in-memory and FileSystem sources) must show sleeping reloader "
          "tasks with 0 ticks; then create/use/drop sequences of 1..3 (quick) / 1..8 (thorough) caches, "
@@ -404,7 +405,7 @@ sys_prop(
     "ill-formed UTF-8 and stays within i64, StringLoader keeps the bytes of exactly the well-formed strings.  "
     "Error ids/wrapping, FileContent variants, "
     "retry after repair are checked by the correspondence (traces of reads and loader calls compared verbatim).",
-    ["Proofs/Load.v", "Proofs/Utf8.v", "Proofs/Loaders.v", "Tie/Error.v", "Tie/LoadFromSource.v", "Tie/Dirs.v", "Tie/Loaders.v", "Tie/Graph.v", "Tie/Fs.v",
+    ["Proofs/Load.v", "Proofs/Utf8.v", "Proofs/Loaders.v", "Tie/Error.v", "Tie/LoadFromSource.v", "Tie/Dirs.v", "Tie/Loaders.v", "Tie/Graph.v", "Tie/Fs.v", "Tie/Records.v",
      "Props/C03.v"], ["Props/C03.vo"],
     ["C03_code_or_is_model_or", "C03_code_error_conversions_keep_the_class", "C03_code_load_error_names_the_asked_id", "C03_or_prefers_the_higher_class",
      "C03_code_load_from_source_is_model_up_to_3_extensions", "C03_first_readable_decodable_extension_wins",
@@ -412,8 +413,8 @@ sys_prop(
      "C03_code_path_of_entry", "C03_code_filesystem_source", "C03_code_builtin_loaders_as_modelled", "C03_parse_loader_ignores_surrounding_whitespace",
      "C03_trim_removes_exactly_the_surrounding_whitespace", "C03_parse_loader_rejects_ill_formed_utf8",
      "C03_parse_loader_stays_in_range", "C03_string_loader_keeps_the_bytes",
-     "C03_code_load_from_source_has_one_path"],
-    ["Error", "Asset", "Key", "Flags", "Dirs", "Loaders", "Private", "Fs"], ["loader-depends-on-delivery", "filesystem-load-differs"], mode="cold",
+     "C03_code_load_from_source_has_one_path", "C03_code_cache_reads_go_straight_to_the_source"],
+    ["Error", "Asset", "Key", "Flags", "Dirs", "Loaders", "Private", "Fs", "Records", "Anycache"], ["loader-depends-on-delivery", "filesystem-load-differs"], mode="cold",
     extra_engines=[("loaddiff", [])])
 PROPS["C03"]["model_files"] = PROPS["C03"]["model_files"] + ["Ref/Utf8.v", "Ref/Loaders.v", "Corr/LoadCheck.v"]
 PROPS["C03"]["model_targets"] = PROPS["C03"]["model_targets"] + ["Corr/LoadCheck.vo"]
@@ -678,7 +679,7 @@ PROPS["C04"] = dict(
                "answer printers), the checkers in Corr/SrcCheck.v.  I5: archives with the same member path "
                "twice are not generated.",
     gen=["Archive", "Private", "Deps", "Embed", "Fs", "Watcher"],
-    model_files=["Ref/Tree.v", "Ref/Archive.v", "Ref/Embed.v", "Corr/Common.v", "Corr/SrcCheck.v"],
+    model_files=["Ref/Tree.v", "Ref/Archive.v", "Ref/Embed.v", "Ref/Watcher.v", "Corr/Common.v", "Corr/SrcCheck.v"],
     model_targets=["Corr/SrcCheck.vo"],
     proof_files=["Proofs/Tree.v", "Proofs/Archive.v", "Proofs/Embed.v", "Tie/Archive.v", "Tie/ArchivePath.v", "Tie/Watcher.v", "Tie/Graph.v", "Tie/Embed.v", "Tie/Fs.v", "Props/C04.v"],
     proof_targets=["Props/C04.vo"],
@@ -711,7 +712,7 @@ PROPS["C11"] = dict(
                "the sysdiff correspondence with Ref.Sys.load_rec_dir_value.",
     level_note="Trusted: as C04; the sort order compared is byte order of the joined ids.",
     gen=["Dirs", "Flags", "Archive", "Embed", "Watcher", "Private"],
-    model_files=["Ref/Tree.v", "Ref/Archive.v", "Corr/Common.v", "Corr/SrcCheck.v", "Ref/Load.v", "Ref/Sys.v", "Corr/SysCheck.v"],
+    model_files=["Ref/Tree.v", "Ref/Archive.v", "Ref/Watcher.v", "Corr/Common.v", "Corr/SrcCheck.v", "Ref/Load.v", "Ref/Sys.v", "Corr/SysCheck.v"],
     model_targets=["Corr/SrcCheck.vo", "Corr/SysCheck.vo"],
     proof_files=["Proofs/Tree.v", "Tie/Dirs.v", "Tie/Archive.v", "Tie/ArchivePath.v", "Tie/Watcher.v", "Tie/Embed.v", "Props/C11.v"],
     proof_targets=["Props/C11.vo"],
